@@ -2,6 +2,8 @@
 From Coq Require Import List ZArith Lia Bool Permutation.
 From AG Require Import Str F64 Value Json Expr Ops Pipeline F64_exact_proofs Value_proofs Agg_proofs Perm_proofs.
 Import ListNotations.
+From Coq Require Import Reals.
+From AG Require Import Sum_error_proofs.
 Open Scope Z_scope.
 
 (** permuting the input permutes the rows of every group and keeps the set of groups *)
@@ -102,3 +104,31 @@ Example C14_example :
   acc_emit (fold_left acc_step [r 9; r 3; r (-5)] (acc_empty (FSum e))) = Ok (VInt 7) /\
   acc_emit (fold_left acc_step [r 9; r 3; r (-5)] (acc_empty (FMin e))) = Ok (VInt (-5)).
 Proof. vm_compute. repeat split. Qed.
+
+(** float sums: the cell is the left-to-right floating-point sum of the numeric arguments ... *)
+Theorem C14_sum_cell_is_fsum : forall e rows,
+  acc_emit (fold_left acc_step rows (acc_empty (FSum e))) = Ok (from_float (fsum (numeric_args e rows))).
+Proof. exact sum_cell_is_fsum. Qed.
+Print Assumptions C14_sum_cell_is_fsum.
+
+(** ... which differs from the exact real sum by at most the recursive-summation bound ... *)
+Theorem C14_float_sum_error : forall l,
+  Forall wf l -> no_overflow f_zero l ->
+  (Rabs (fR (fsum l) - sumR l) <= ((1 + u64) ^ length l - 1) * sum_absR l)%R.
+Proof. exact fsum_error. Qed.
+Print Assumptions C14_float_sum_error.
+
+(** ... so two arrival orders of the same values differ by at most twice that bound: this is the
+    "floating-point tolerance" of the property, for every list length, with no bound on the values
+    other than that no partial sum overflows *)
+Theorem C14_float_sum_order_tolerance : forall l l',
+  Permutation l l' -> Forall wf l -> no_overflow f_zero l -> no_overflow f_zero l' ->
+  (Rabs (fR (fsum l) - fR (fsum l')) <= 2 * ((1 + u64) ^ length l - 1) * sum_absR l)%R.
+Proof. exact fsum_perm_error. Qed.
+Print Assumptions C14_float_sum_order_tolerance.
+
+(** the closed form the check uses, 2(n+1) 2^-52 sum|x|, dominates the bound whenever n 2^-53 <= 1/2 *)
+Theorem C14_tolerance_closed_form : forall n : nat,
+  (INR n * u64 <= / 2 -> (1 + u64) ^ n - 1 <= 2 * INR n * u64)%R.
+Proof. exact bound_simple. Qed.
+Print Assumptions C14_tolerance_closed_form.
